@@ -119,19 +119,19 @@ theorem arrayOp_notok {m : Method} {ell : Bool} {val : Json} {idxStr : Bytes} {a
   | err e => exact arrayOp_err hr
   | panic => exact absurd hr (arrayOp_no_panic m ell val idxStr arr)
 
-/-! unfolding equations of `trav`, one per arm -/
+/-! unfolding equations of `trav`, one per arm (Lean's own `trav.eq_n`, renamed) -/
 
-theorem trav_nil (m : Method) (ell : Bool) (val : Json) (node : Json) : trav m ell val [] node = (node, .ok none) := by
-  cases node <;> rfl
+theorem trav_nil (m : Method) (ell : Bool) (val : Json) (node : Json) : trav m ell val [] node = (node, .ok none) :=
+  trav.eq_1 m ell val node
 
 theorem trav_obj_special {m : Method} {ell : Bool} {val : Json} {part idxStr : Bytes} {kvs : Obj} {arr : List Json}
     (h : lookup part kvs = some (.arr arr)) :
-    trav m ell val [part, idxStr] (.obj kvs) = inArrayDest part kvs (arrayOp m ell val idxStr arr) := by
-  rw [trav]; split <;> simp_all
+    trav m ell val [part, idxStr] (.obj kvs) = inArrayDest part kvs (arrayOp m ell val idxStr arr) :=
+  trav.eq_2 m ell val part kvs arr idxStr h
 
 theorem trav_obj_last (m : Method) (ell : Bool) (val : Json) (part : Bytes) (kvs : Obj) :
-    trav m ell val [part] (.obj kvs) = lastOp m ell val part kvs (lookup part kvs) := by
-  rw [trav]; split <;> simp_all
+    trav m ell val [part] (.obj kvs) = lastOp m ell val part kvs (lookup part kvs) :=
+  trav.eq_3 m ell val part kvs
 
 theorem trav_obj_mid {m : Method} {ell : Bool} {val : Json} {part a : Bytes} {b : List Bytes} {kvs : Obj}
     (hns : ∀ arr, lookup part kvs = some (.arr arr) → b ≠ []) :
@@ -139,11 +139,8 @@ theorem trav_obj_mid {m : Method} {ell : Bool} {val : Json} {part a : Bytes} {b 
       if isNil (lookup part kvs) && m == .put then inNewObj part kvs (trav m ell val (a :: b) (.obj []))
       else match lookup part kvs with
         | none => (.obj kvs, .err .traversal)
-        | some c => inObj part kvs (trav m ell val (a :: b) c) := by
-  rw [trav]; split
-  · next arr idxStr hl heq => simp at heq; exact absurd heq.2 (hns arr hl)
-  · next h => simp at h
-  · next child x y h1 h2 => simp at h2; obtain ⟨rfl, rfl⟩ := h2; subst h1; rfl
+        | some c => inObj part kvs (trav m ell val (a :: b) c) :=
+  trav.eq_4 m ell val part kvs a b hns
 
 theorem trav_arr (m : Method) (ell : Bool) (val : Json) (part : Bytes) (rest : List Bytes) (xs : List Json) :
     trav m ell val (part :: rest) (.arr xs) =
@@ -153,13 +150,13 @@ theorem trav_arr (m : Method) (ell : Bool) (val : Json) (part : Bytes) (rest : L
         if i < 0 ∨ i ≥ xs.length then (.arr xs, .err .oob)
         else match xs[i.toNat]? with
           | none => (.arr xs, .panic)
-          | some c => inArr i.toNat xs (trav m ell val rest c) := by
-  rw [trav]
+          | some c => inArr i.toNat xs (trav m ell val rest c) :=
+  trav.eq_5 m ell val part rest xs
 
 theorem trav_scalar {m : Method} {ell : Bool} {val : Json} {part : Bytes} {rest : List Bytes} {node : Json}
     (h1 : ∀ kvs, node ≠ .obj kvs) (h2 : ∀ xs, node ≠ .arr xs) :
-    trav m ell val (part :: rest) node = (node, .err .traversal) := by
-  cases node <;> simp_all [trav]
+    trav m ell val (part :: rest) node = (node, .err .traversal) :=
+  trav.eq_6 m ell val node part rest h1 h2
 
 /-- the three ways an object node is entered, as one case split -/
 theorem trav_obj_cases (m : Method) (ell : Bool) (val : Json) (part : Bytes) (rest : List Bytes) (kvs : Obj) :
@@ -208,32 +205,114 @@ theorem trav_notok_pure (m : Method) (ell : Bool) (val : Json) : ∀ (parts : Li
       · rw [heq] at h ⊢
         exact lastOp_notok h
       · rw [heq] at h ⊢
-        split at h
-        · next hc =>
+        by_cases hc : (isNil (lookup part kvs) && m == .put) = true
+        · rw [if_pos hc] at h
           simp only [inNewObj] at h
           have := trav_put_fresh ell val (a :: b) (by simp)
           simp at hc
           rw [hc.2] at h
           exact absurd this (h none)
-        · split at h
-          · rfl
-          · next c hc =>
-            simp only [inObj] at h ⊢
-            rw [ih c h, replaceKey_self hc]
+        · rw [if_neg hc] at h ⊢
+          cases hl : lookup part kvs with
+          | none => rfl
+          | some c =>
+            simp only [hl, inObj] at h ⊢
+            rw [ih c h, replaceKey_self hl]
     | arr xs =>
       rw [trav_arr] at h ⊢
-      split at h
-      · rfl
-      · split at h
-        · rfl
-        · split at h
-          · rfl
-          · next c hc =>
-            simp only [inArr] at h ⊢
-            rw [ih c h, set_self hc]
+      cases ha : atoi part with
+      | none => rfl
+      | some i =>
+        simp only [ha] at h ⊢
+        by_cases hi : i < 0 ∨ i ≥ xs.length
+        · rw [if_pos hi]
+        · rw [if_neg hi] at h ⊢
+          cases hx : xs[i.toNat]? with
+          | none => rfl
+          | some c =>
+            simp only [hx, inArr] at h ⊢
+            rw [ih c h, set_self hx]
     | null => rw [trav_scalar (by simp) (by simp)]
     | bool b => rw [trav_scalar (by simp) (by simp)]
     | num t => rw [trav_scalar (by simp) (by simp)]
     | str t => rw [trav_scalar (by simp) (by simp)]
+
+theorem arrayOp_get_pure (ell : Bool) (val : Json) (idxStr : Bytes) (arr : List Json) :
+    (arrayOp .get ell val idxStr arr).1 = arr := by
+  simp only [arrayOp]; (repeat' split) <;> simp_all
+
+/-- GET never changes the tree -/
+theorem trav_get_pure (ell : Bool) (val : Json) : ∀ (parts : List Bytes) (node : Json),
+    (trav .get ell val parts node).1 = node := by
+  intro parts
+  induction parts with
+  | nil => intro node; simp [trav_nil]
+  | cons part rest ih =>
+    intro node
+    cases node with
+    | obj kvs =>
+      rcases trav_obj_cases .get ell val part rest kvs with ⟨arr, idxStr, rfl, hl, heq⟩ | ⟨rfl, heq⟩ | ⟨a, b, rfl, hns, heq⟩
+      · rw [heq]; simp only [inArrayDest]; rw [arrayOp_get_pure, replaceKey_self hl]
+      · rw [heq]; rfl
+      · rw [heq]
+        have hc : ¬ (isNil (lookup part kvs) && Method.get == .put) = true := by simp
+        rw [if_neg hc]
+        cases hl : lookup part kvs with
+        | none => rfl
+        | some c => simp only [inObj]; rw [ih c, replaceKey_self hl]
+    | arr xs =>
+      rw [trav_arr]
+      cases ha : atoi part with
+      | none => rfl
+      | some i =>
+        simp only []
+        by_cases hi : i < 0 ∨ i ≥ xs.length
+        · rw [if_pos hi]
+        · rw [if_neg hi]
+          cases hx : xs[i.toNat]? with
+          | none => rfl
+          | some c => simp only [inArr]; rw [ih c, set_self hx]
+    | null => rw [trav_scalar (by simp) (by simp)]
+    | bool b => rw [trav_scalar (by simp) (by simp)]
+    | num t => rw [trav_scalar (by simp) (by simp)]
+    | str t => rw [trav_scalar (by simp) (by simp)]
+
+/-- no index expression of the traversal can go out of range -/
+theorem trav_no_panic (m : Method) (ell : Bool) (val : Json) : ∀ (parts : List Bytes) (node : Json),
+    (trav m ell val parts node).2 ≠ .panic := by
+  intro parts
+  induction parts with
+  | nil => intro node; simp [trav_nil]
+  | cons part rest ih =>
+    intro node
+    cases node with
+    | obj kvs =>
+      rcases trav_obj_cases m ell val part rest kvs with ⟨arr, idxStr, rfl, hl, heq⟩ | ⟨rfl, heq⟩ | ⟨a, b, rfl, hns, heq⟩
+      · rw [heq]; exact arrayOp_no_panic m ell val idxStr arr
+      · rw [heq]; exact lastOp_no_panic m ell val part kvs _
+      · rw [heq]
+        split
+        · exact ih _
+        · split
+          · simp
+          · exact ih _
+    | arr xs =>
+      rw [trav_arr]
+      split
+      · simp
+      · split
+        · simp
+        · next i _ hi =>
+          split
+          · next hx =>
+            exfalso
+            have : i.toNat < xs.length := by omega
+            simp at hx
+            omega
+          · exact ih _
+    | null => rw [trav_scalar (by simp) (by simp)]; simp
+    | bool b => rw [trav_scalar (by simp) (by simp)]; simp
+    | num t => rw [trav_scalar (by simp) (by simp)]; simp
+    | str t => rw [trav_scalar (by simp) (by simp)]; simp
 
 end CaddyModel.C12
